@@ -198,6 +198,7 @@ type Cluster struct {
 	byzHandler      func(s *Step)
 	byzGen          func(g *genState) *Step
 	observer        *SimNode
+	synthetic       bool
 	recordWrites    bool
 	recorder        *recStore
 	curTask         *task
@@ -283,6 +284,23 @@ func (c *Cluster) installHooks() {
 		return c.inner.Perm(k)
 	}
 	hg.SimStoreHook = c.storeHook
+	hg.SimProbe = func(name string, v int) {
+		if c.inShadow {
+			return
+		}
+		switch name {
+		case "fame.decided":
+			c.stats.probeMax("fame-decision-distance-max", v)
+			if v >= 3 {
+				c.stats.probe(fmt.Sprintf("fame-decided-at-distance-%d", v))
+			}
+		case "fame.coin":
+			c.stats.probe("coin-round-vote")
+			if v == 0 {
+				c.stats.probe("coin-round-vote-exact-supermajority")
+			}
+		}
+	}
 	node.SimPick = func(cands []uint32) (uint32, bool) {
 		if c.net.pickID != 0 {
 			for _, x := range cands {
@@ -307,6 +325,7 @@ func uninstallHooks() {
 	hg.SimNow = nil
 	hg.SimPermute = nil
 	hg.SimStoreHook = nil
+	hg.SimProbe = nil
 	node.SimPick = nil
 	node.SimDefer = nil
 	node.SimYield = nil
